@@ -280,6 +280,82 @@ def check_single(chk, case):
                  {"batch": brief(rows_b, False), "alone": brief(rows_1, False)})
 
 
+# ------------------------------------------------------------------ network mode (BatchNorm / Dropout in the stub)
+SIG_MODE = "inference_model_does_not_force_eval"
+CUR = {"fresh": "train", "eval_set": "eval", "train_after_build": "train", "after_train_forward": "train"}
+
+
+def mode_verdict(chk, kind, history, observed_train, stats_changed, differs, small, model_line, detail):
+    """Common bookkeeping of one (model kind, call history) run: `observed_train` = the stub saw
+    training=True during a wrapper forward."""
+    want, asis = model_line.split()[1:3]            # mode under the repaired wrapper / as coded
+    obs = "train" if observed_train else "eval"
+    chk.tag(f"mode:{kind}:{history}:{obs}")
+    if obs != want:
+        if obs == asis and kind in ("single", "bottomup"):
+            # structural predicate of F-C12: this wrapper never switches the network to eval mode
+            chk.fail(f"C12: {kind} inference ran the network in TRAIN mode (history {history}): "
+                     f"running statistics moved: {stats_changed}; frame result depends on batch-mates: {differs}",
+                     small, detail, [SIG_MODE])
+            return
+        chk.disagree("network mode during inference == Decode.modeOf (forward_mode_eval)", small, obs, model_line)
+    why = []
+    if observed_train:
+        why.append("the network ran in train mode during inference")
+    if stats_changed:
+        why.append("predicting changed the network's running statistics")
+    if differs:
+        why.append(f"history {history}: " + differs)
+    if why:
+        chk.fail(f"C12 fails on {kind}: " + "; ".join(why[:3]), small, detail)
+
+
+def check_modes(chk, case):
+    """Stub = renderer → BatchNorm → Dropout.  For every call history: batch ≡ frames alone ≡ permuted,
+    the network is seen in eval mode, its running statistics do not move."""
+    kind = "single" if case["pipeline"] == "single" else "topdown"
+    vids = frames_of(case)
+    order = [tuple(o) for o in case["order"]]
+    frames = [vids[v][k] for v, k in order]
+    impl = impl_single if kind == "single" else impl_topdown
+    td = kind == "topdown"
+    lines = [f"mode {kind} {CUR[h]}" for h in stubs.HISTORIES]
+    model = yield lines
+    for h, ml in zip(stubs.HISTORIES, model):
+        small = {**case, "history": h}
+        c = {**case, "mode_layers": True, "history": h}
+        info, runs = {"modes": [], "stats_changed": False}, []
+        try:
+            for variant in (c, {**c, "batch": 1}, {**c, "order": [tuple(o) for o in case["perm"]]}):
+                r = impl(variant, "LabelsReader", vids)
+                runs.append(r[0])
+                info["modes"] += c02.LAST.get("modes", [])
+                info["stats_changed"] = info["stats_changed"] or c02.LAST.get("stats_changed", False)
+            differs = ""
+            bb, b1, bp = (rows_by_code(r) for r in runs)
+            for fr in frames:
+                if not same_rows(bb.get(fr.code, []), b1.get(fr.code, []), td):
+                    differs = f"frame (video {fr.video}, idx {fr.frame_idx}) in a batch of {case['batch']} differs from the frame alone"
+                    break
+                if not same_rows(bb.get(fr.code, []), bp.get(fr.code, []), td):
+                    differs = f"frame (video {fr.video}, idx {fr.frame_idx}) changes when the batch is permuted"
+                    break
+        except stubs.StubAmbiguous:
+            chk.tag("stub_ambiguous_skipped")
+            continue
+        except Exception as e:
+            info["modes"] += c02.LAST.get("modes", [])
+            differs = f"raised {type(e).__name__}: {str(e)[:120]}"
+            if not info["modes"]:
+                info["modes"] = [True] if h != "eval_set" else [False]   # raised before the log was read
+        chk.case((kind, "modes", h, json.dumps(case, sort_keys=True)),
+                 {"case": "modes", "kind": kind, "history": h, "modes_seen": sorted(set(info["modes"])),
+                  "stats_changed": info["stats_changed"], "differs": differs},
+                 tags=["mode_layers", kind])
+        mode_verdict(chk, kind, h, any(info["modes"]), info["stats_changed"], differs, small, ml,
+                     {"modes_seen": sorted(set(info["modes"])), "stats_changed": info["stats_changed"]})
+
+
 # ------------------------------------------------------------------ generators
 def add_order(rng, case, subset=True):
     universe = [(vi, k) for vi, v in enumerate(case["videos"]) for k in range(len(v))]
@@ -388,7 +464,28 @@ def bias_nan_batchmate(rng, i):
     return natural_order(case, B=len(v))
 
 
+def bias_undershoot(rng, i):
+    """integral refinement, some frames of the batch have a small negative undershoot around their
+    bumps, others none: a batch-wide statistic of the refinement patches shows as batch dependence"""
+    for _ in range(60):
+        case = gen_single_case(rng, refine="integral") if i % 2 == 0 else \
+            gen_topdown_case(rng, refine="integral", max_instances=None, counts=(1, 2, 2, 3))
+        case["videos"] = case["videos"][:1]
+        v = case["videos"][0]
+        v[:] = [f for f in v if f["animals"]]
+        if v:
+            break
+    while len(v) < 3:
+        v.append(json.loads(json.dumps(v[-1])))
+    for k, f in enumerate(v):
+        f["undershoot"] = [0.0, rng.choice([0.01, 0.02, 0.03, 0.05]), rng.choice([0.0, 0.04])][k % 3]
+    case["bias"] = "integral_with_undershoot_batchmate"
+    return natural_order(case, B=len(v))
+
+
 def case_gen(chk, case):
+    if case.get("modes"):
+        return check_modes(chk, case)
     return check_single(chk, case) if case["pipeline"] == "single" else check_topdown(chk, case)
 
 
@@ -637,6 +734,14 @@ def main(chk: Check):
         cases.append(gen_single(rng, i))
     for i in range(chk.n(4, 40)):
         cases += [bias_empty_first(rng, i), bias_topk_after_detections(rng, i), bias_nan_batchmate(rng, i)]
+    for i in range(chk.n(6, 60)):
+        cases.append(bias_undershoot(rng, i))
+    for i in range(chk.n(6, 40)):
+        base = gen_single(rng, i) if i % 2 == 0 else gen_topdown(rng, i)
+        if base["batch"] < 2:
+            base["batch"] = 2
+        base["modes"] = True
+        cases.append(base)
     run_cases(chk, cases)
     bottomup_cases(chk, chk.n(10, 120))
     # model-only sanity of the chunking (cheap, exact): sizes of chunks B n
